@@ -30,13 +30,14 @@ META = {
             "payload and its writes are in the receiver after the call for variable, interface-copy, parameter, pointer and "
             "array-element receivers (nothing else changes); impl-static keys are injective, a call touches only the statics of "
             "the receiver's (interface, type) pair, statics are never lost; binding a type without an impl is rejected. The defects "
-            "of the pinned code (statics unreachable through struct / primitive receivers, one-slot impl context, method of another "
-            "interface callable through an interface variable, `return self` of a primitive) are `_refuted` theorems and known "
-            "findings. The model is tied to the code on every run by executing generated programs on main and on the extracted model.",
+            "still in the code (a method of another interface callable through an interface variable; writes of a nested self.m() "
+            "lost) are `_refuted` theorems and known findings; the four defects repaired by ffeef7f / 3be9fd7 / 5e201e9 / 7c216d9 "
+            "are now positive laws and main-stream inputs. The model is tied to the code on every run by executing generated programs on main and on the extracted model.",
     "note": "Trusted: Coq 8.16.1 kernel (vm_compute for the refutation witnesses), no axioms (Print Assumptions: closed); extraction "
             "via ExtrOcamlBasic+ExtrOcamlString; the model is hand-written and abstracts a struct value to one field list, all "
-            "values are int, method bodies are straight-line; nested method calls, interface variables mixing struct and primitive "
-            "payloads, references and generic impls are not modelled (tested by fixed replays only).",
+            "values are int, method bodies are straight-line with one level of nested self.m() calls; deeper nesting, calls on "
+            "parameters inside bodies, interface variables mixing struct and primitive payloads, references and generic impls are "
+            "not modelled (tested by fixed replays only).",
 }
 
 POOL_M = ["m0", "m1", "m2", "m3", "m4", "m5"]
@@ -402,7 +403,7 @@ def add_nested_calls(rng, types, impls):
                 dd, mm = rng.choice(cands)
                 tag = "%s.%s.%s>%s" % (d["iface"], t["name"], m["name"], mm["name"])
                 m["body"].insert(rng.randint(0, len(m["body"])),
-                                 ["C", tag, mm["name"], gen_expr(rng, fields, st if method_uses_statics(m) or rng.random() < 0.5 else [], prim, 1)])
+                                 ["C", tag, mm["name"], gen_expr(rng, fields, st, prim, 1)])
                 callees.add(id(mm))
             callers.add(id(m))
 
@@ -648,7 +649,8 @@ def small_world():
         tag = "%s.%s." % (i, t)
         obs = [["f", f] for f in fields]
         return {"iface": i, "type": t, "statics": [("s0", init)], "methods": [
-            {"name": "m0", "body": [["F", "f0", e_add(f0, d)], ["S", "s0", e_add(s0, e_c(k))], ["P", tag + "m0", obs + [s0]]],
+            {"name": "m0", "body": [["F", "f0", e_add(f0, d)], ["S", "s0", e_add(s0, e_c(k))], ["C", tag + "m0>m3", "m3", e_add(d, s0)],
+                                    ["P", tag + "m0", obs + [s0]]],
              "ret": e_add(f0, s0)},
             {"name": "m1", "body": [["P", tag + "m1", obs + [d]]], "ret": e_mul(f0, e_c(k))},
             {"name": "m3", "body": [["P", tag + "m3", obs + [s0]]], "ret": s0}]}
@@ -656,7 +658,8 @@ def small_world():
     types = [{"name": "T0", "kind": "struct", "fields": ["f0", "f1"]}, {"name": "T1", "kind": "struct", "fields": ["f0"]}]
     impls = [impl("I0", "T0", ["f0", "f1"], 10, 1), impl("I0", "T1", ["f0"], 50, 2),
              {"iface": "I1", "type": "T0", "statics": [("s0", 90)], "methods": [
-                 {"name": "m2", "body": [["F", "f1", e_add(f1, d)], ["P", "I1.T0.m2", [f0, f1, d]]], "ret": f1}]}]
+                 {"name": "m2", "body": [["F", "f1", e_add(f1, d)], ["C", "I1.T0.m2>m1", "m1", f1], ["S", "s0", e_add(s0, e_c(3))],
+                                         ["P", "I1.T0.m2", [f0, f1, d, s0]]], "ret": e_add(f1, s0)}]}]
     vars_ = [{"name": "xT00", "type": "T0", "kind": "conc", "init": [1, 2]},
              {"name": "xT10", "type": "T1", "kind": "conc", "init": [5]},
              {"name": "aT0", "type": "T0", "kind": "arr", "init": [[3, 4], [6, 7]]}]
@@ -974,6 +977,19 @@ def prog_features(p):
             f.add("op-" + o[0])
     if any(k == "prim" for k in types.values()):
         f.add("prim-type")
+    meths = {(d["type"], m["name"]): m for d in p["impls"] for m in d["methods"]}
+    if any(has_calls(m) for m in meths.values()):
+        f.add("nested-self-call")
+    if any(m["ret"] == ["s"] for m in meths.values()):
+        f.add("return-self")
+    vt = {v["name"]: v for v in p["vars"]}
+    if any(v["kind"] == "conc" and types[v["type"]] == "prim" and v["init"] < 0 for v in p["vars"]):
+        f.add("negative-primitive")
+    for o in p["ops"]:
+        if o[0] == "c" and o[1][0] in ("V", "E") and o[1][1] in vt:
+            m = meths.get((vt[o[1][1]]["type"], o[2]))
+            if m is not None and method_uses_statics(m):
+                f.add("statics-through-concrete-receiver")
     if any(d["statics"] for d in p["impls"]):
         f.add("statics")
     return f
@@ -1008,10 +1024,22 @@ def run(rep):
 
     progs, origin = [], []
     corpus = os.path.join(common.VERIF, "corpus", "c12.json")
+    regress = []
     if os.path.exists(corpus):
         for c in json.load(open(corpus)):
-            progs.append(c)
-            origin.append("corpus")
+            if "source" in c:
+                regress.append(c)      # repaired defect outside the model's language: source + demanded output
+            else:
+                progs.append(c)
+                origin.append("corpus")
+    for c in regress:
+        rc, o, e = common.run_cb(impl, c["source"], timeout=10)
+        got = ([l for l in o.split("\n") if l != ""], classify(rc, e))
+        if got[0] != c["expected_stdout"] or got[1] != c.get("expected_class", "ok"):
+            rep.violation("regress", {"source": c["source"], "impl": got, "expected": [c["expected_stdout"], c.get("expected_class", "ok")],
+                                      "former_finding": c.get("former_finding")},
+                          "a repaired C12 defect is back (%s): main prints %r, demanded %r" % (
+                              c.get("former_finding"), got[0][:4], c["expected_stdout"][:4]))
     n_main = 2500 if tier == "quick" else 50000
     n_small = 1000 if tier == "quick" else 15000
     n_mal = 500 if tier == "quick" else 8000
@@ -1089,6 +1117,7 @@ def run(rep):
                 "distinct = distinct serialised programs; non-trivial = prints at least one line or is rejected",
         "input_distribution": hist, "feature_histogram": feats,
         "permuted_impl_order_runs": len(perm_idx), "dropped_outside_model_domain": dropped,
+        "fixed_defect_source_replays": len(regress),
         "disagreements": len(bad) + len(badp),
         "samples": [{"program": to_cb(progs[k]), "model": models[k], "impl": impls[k]} for k in ([0, len(progs) // 2] if progs else [])],
         "exhaustive": True,
@@ -1148,8 +1177,8 @@ def run(rep):
     rep.assumptions += [
         "the model abstracts a struct value to one field list (Variable::struct_members and the flattened x.f variables are one thing)",
         "all fields, arguments, statics and results are int and stay inside int (programs leaving the range are dropped, counted)",
-        "method bodies are straight-line (assignments to self fields / impl statics, println, one return)",
-        "nested method calls, references, generic impls and interface variables mixing struct and primitive payloads are outside the model",
+        "method bodies are straight-line (assignments to self fields / impl statics, println, self.m(e) on call-free methods, one return)",
+        "deeper nesting, references, generic impls and interface variables mixing struct and primitive payloads are outside the model",
     ]
 
 
